@@ -22,6 +22,21 @@ func c02CheckError(err error, code Code, msg string, metaKey, metaVal string) {
 	}
 }
 
+// c02AddMulti attaches three values under one key of the error's metadata.
+func c02AddMulti(e *Error) []string {
+	vals := []string{"first", c11Val("multi", 1), "third"}
+	for _, v := range vals {
+		e.Meta().Add("X-Err-Multi", v)
+	}
+	return vals
+}
+
+func c02CheckMulti(err error, vals []string) {
+	if ce, ok := asError(err); ok {
+		check(sameValues(ce.Meta().Values("X-Err-Multi"), vals...), "every value of a multi-valued error metadata key reaches the client, in order")
+	}
+}
+
 func c02UnaryCall(proto int, herr error) (*stackTransport, error) {
 	handler := NewUnaryHandler(
 		"/pkg.Svc/Method",
@@ -57,18 +72,20 @@ func HarnessC02UnaryCode() {
 	assume(code >= 1 && code <= 16)
 	e := NewError(code, errors.New("boom %1"))
 	e.Meta().Set("X-Err-Meta", "m1")
+	multi := c02AddMulti(e)
 	tr, err := c02UnaryCall(proto, e)
 	if err == nil {
 		return
 	}
 	c02CheckError(err, code, "boom %1", "X-Err-Meta", "m1")
+	c02CheckMulti(err, multi)
 	c02CheckStatus(proto, tr, code)
 }
 
 // HarnessC02UnaryMessage: every message (all byte values up to the bound:
 // NUL, control characters, '%', CR/LF, blanks, non-ASCII) survives.
 //
-//verif:harness property=C02 stubs=json,wire shard=proto:3
+//verif:harness property=C02 stubs=json,wire shard=proto:3 cross=z3-new
 func HarnessC02UnaryMessage() {
 	proto := nondetChoice("proto", 3)
 	msg := nondetString("message", bound("msgLen", 2, 3))
@@ -83,7 +100,7 @@ func HarnessC02UnaryMessage() {
 
 // HarnessC02Uncoded: a plain Go error arrives as code unknown with its text.
 //
-//verif:harness property=C02 stubs=json,wire shard=proto:3
+//verif:harness property=C02 stubs=json,wire shard=proto:3 cross=z3-new
 func HarnessC02Uncoded() {
 	proto := nondetChoice("proto", 3)
 	msg := nondetString("message", bound("msgLen", 2, 2))
@@ -104,6 +121,7 @@ func HarnessC02StreamError() {
 	k := nondetChoice("sent", bound("sent", 2, 3))
 	code := Code(nondetUint32("code"))
 	assume(code >= 1 && code <= 16)
+	var multi []string
 	handler := NewServerStreamHandler(
 		"/pkg.Svc/Method",
 		func(ctx context.Context, req *Request[[]byte], stream *ServerStream[[]byte]) error {
@@ -115,6 +133,7 @@ func HarnessC02StreamError() {
 			}
 			e := NewError(code, errors.New("late"))
 			e.Meta().Set("X-Err-Meta", "m2")
+			multi = c02AddMulti(e)
 			return e
 		},
 		stackHandlerOptions()...,
@@ -140,6 +159,7 @@ func HarnessC02StreamError() {
 	check(serr != nil, "an error returned after sending messages is never delivered as success")
 	if serr != nil {
 		c02CheckError(serr, code, "late", "X-Err-Meta", "m2")
+		c02CheckMulti(serr, multi)
 	}
 	check(tr.rec.status == 200, "streaming responses are HTTP 200")
 	_ = stream.Close()
